@@ -1,0 +1,37 @@
+//go:build verif
+
+package blake2b
+
+import "golang.org/x/sys/cpu"
+
+// VerifSetPath forces the hashBlocks dispatch level for the /verif harness (properties C05-C07, C15):
+// "avx2", "avx", "sse4", "generic" (all flags off) or "auto" (the init-time choice).
+// It reports false when the CPU lacks the requested level (nothing is changed then).
+// The flags are package variables: callers must not hash concurrently while switching.
+// In purego / non-amd64 builds hashBlocks ignores the flags and always runs hashBlocksGeneric.
+func VerifSetPath(p string) bool {
+	switch p {
+	case "auto":
+		useAVX2, useAVX, useSSE4 = cpu.X86.HasAVX2, cpu.X86.HasAVX, cpu.X86.HasSSE41
+	case "avx2":
+		if !cpu.X86.HasAVX2 {
+			return false
+		}
+		useAVX2, useAVX, useSSE4 = true, false, false
+	case "avx":
+		if !cpu.X86.HasAVX {
+			return false
+		}
+		useAVX2, useAVX, useSSE4 = false, true, false
+	case "sse4":
+		if !cpu.X86.HasSSE41 {
+			return false
+		}
+		useAVX2, useAVX, useSSE4 = false, false, true
+	case "generic":
+		useAVX2, useAVX, useSSE4 = false, false, false
+	default:
+		return false
+	}
+	return true
+}
